@@ -40,8 +40,8 @@ ASSUMPTIONS = ["attribute values are finite dyadic rationals, +-inf defaults, or
                "the loop iterated); the property itself is order-independent except for which explicit start is adopted",
                "fixed attributes are Booleans (the code folds them with fmax over 0/1)"]
 
-FORMS_POS = ["{a} = {b}", "{b} = {a}", "{a} - {b} = 0", "0 = {a} - {b}", "-{a} = -{b}", "2*{a} = 2*{b}"]
-FORMS_NEG = ["{a} = -{b}", "{a} + {b} = 0", "-{a} = {b}", "{b} = -{a}", "0 = {a} + {b}", "-{a} - {b} = 0"]
+FORMS_POS = ["{a} = {b}", "{b} = {a}", "{a} - {b} = {z}", "{z} = {a} - {b}", "-{a} = -{b}", "2*{a} = 2*{b}"]
+FORMS_NEG = ["{a} = -{b}", "{a} + {b} = {z}", "-{a} = {b}", "{b} = -{a}", "{z} = {a} + {b}", "-{a} - {b} = {z}"]
 MERGED = ("min", "max", "nominal", "fixed", "start")
 
 
@@ -80,6 +80,19 @@ def gen_var(rng, name, kind, nparams, typ="Real", par_start=False):
 
 
 def gen_case(rng, stream="main"):
+    if stream == "vector":
+        # the same alias structure on arrays of one length, simplified with expand_vectors + detect_aliases:
+        # every element is an alias system of its own; attributes are `each` scalars or array literals
+        case = gen_case(rng, "main")
+        n = rng.choice([2, 3])
+        case.update(stream="vector", dim=n)
+        for v in case["vars"]:
+            v["type"] = "Real"
+            for a in ("min", "max", "nominal", "start"):
+                if v[a] is not None and "lit" in v[a] and rng.random() < 0.5:
+                    lo, hi = {"min": (-8, 2), "max": (-2, 8), "nominal": (1, 9), "start": (-6, 6)}[a]
+                    v[a] = {"arr": [xj(dy(rng, lo, hi)) for _ in range(n)]}
+        return case
     nparams = rng.choice([0, 0, 1, 2]) if stream != "param-start" else rng.choice([1, 2])
     params = [{"name": "p%d" % (i + 1), "value": xj(dy(rng, -3, 3))} for i in range(nparams)]
     nclass = rng.choice([1, 1, 2, 2, 3]) if not stream.startswith("twopass") else rng.choice([2, 3])
@@ -193,6 +206,8 @@ def parity_map(eqs, names=()):
 
 # ---- Modelica text --------------------------------------------------------------------------
 def attr_text(a, params):
+    if "arr" in a:
+        return "{" + ", ".join(a09.mo_num(a09.jx(x)) for x in a["arr"]) + "}"
     if "lit" in a:
         return a09.mo_num(a09.jx(a["lit"]))
     k, c, p = a09.jx(a["k"]), a09.jx(a["c"]), params[a["par"]]["name"]
@@ -214,26 +229,29 @@ def build_text(case, with_late=True):
     lines = ["model M"]
     for p in case["params"]:
         lines.append("  parameter Real %s = %s;" % (p["name"], a09.mo_num(a09.jx(p["value"]))))
+    dim = case.get("dim") or 0
+    vec = (lambda c: "fill(%d, %d)" % (c, dim)) if dim else (lambda c: "%d" % c)
     for v in case["vars"]:
         mods = []
         for a in ("min", "max", "nominal", "start"):
             if v[a] is not None:
-                mods.append("%s = %s" % (a, attr_text(v[a], case["params"])))
+                each = "each " if dim and "arr" not in v[a] else ""
+                mods.append("%s%s = %s" % (each, a, attr_text(v[a], case["params"])))
         if v["fixed"] is not None:
-            mods.append("fixed = %s" % ("true" if v["fixed"] else "false"))
-        lines.append("  %s%s %s%s;" % ("input " if v["kind"] == "input" else "", v["type"], v["name"],
-                                       "(" + ", ".join(mods) + ")" if mods else ""))
+            mods.append("%sfixed = %s" % ("each " if dim else "", "true" if v["fixed"] else "false"))
+        lines.append("  %s%s %s%s%s;" % ("input " if v["kind"] == "input" else "", v["type"], v["name"],
+                                         "[%d]" % dim if dim else "", "(" + ", ".join(mods) + ")" if mods else ""))
     lines.append("equation")
     k = 0
     for v in case["vars"]:
         if v["kind"] == "state":
             k += 1
-            lines.append("  der(%s) = %d;" % (v["name"], k))
+            lines.append("  der(%s) = %s;" % (v["name"], vec(k)))
     for e in case["eqs"]:
         f = (FORMS_NEG if e["neg"] else FORMS_POS)[e["form"]]
-        lines.append("  " + f.format(a=e["a"], b=e["b"]) + ";")
+        lines.append("  " + f.format(a=e["a"], b=e["b"], z="zeros(%d)" % dim if dim else "0") + ";")
     for i, nme in enumerate(case["extra"]):
-        lines.append("  %s = %d*time + %d;" % (nme, i + 2, i + 1))
+        lines.append("  %s = %s*time + %s;" % (nme, vec(i + 2), vec(i + 1)))
     if case.get("kc"):
         kc = case["kc"]
         lines.append("  %s - %s + %s = 0;" % (kc["a"], kc["b"], kc["c"]))
@@ -244,9 +262,30 @@ def build_text(case, with_late=True):
     for i, members in enumerate(case["classes"]):
         linked = case["late"] and not (case.get("kc") and i == len(case["classes"]) - 1)
         if kinds[members[0]] == "alg" and not (linked and i > 0):
-            lines.append("  3*%s = %d*time + 7;" % (members[-1], i + 2))
+            lines.append("  3*%s = %s*time + %s;" % (members[-1], vec(i + 2), vec(7)))
     lines.append("end M;")
     return "\n".join(lines) + "\n"
+
+
+def expand_case(case):
+    """the element-wise reading of a `vector` case: variable v of length n -> v[1] .. v[n]"""
+    n = case.get("dim")
+    if not n:
+        return case
+    el = lambda name, k: "%s[%d]" % (name, k + 1)
+    vars_ = []
+    for v in case["vars"]:
+        for k in range(n):
+            w = dict(v, name=el(v["name"], k))
+            for a in ("min", "max", "nominal", "start"):
+                if v[a] is not None and "arr" in v[a]:
+                    w[a] = {"lit": v[a]["arr"][k]}
+            vars_.append(w)
+    return dict(case, dim=0, _orig=case,
+                vars=vars_,
+                eqs=[dict(e, a=el(e["a"], k), b=el(e["b"], k)) for e in case["eqs"] for k in range(n)],
+                extra=[el(x, k) for x in case["extra"] for k in range(n)],
+                classes=[[el(m, k) for m in members] for members in case["classes"] for k in range(n)])
 
 
 def late_text_eqs(case):
@@ -326,12 +365,14 @@ def run_impl(case):
         tree = parser.parse(build_text(case), bypass_cache=True)
         if tree is None:
             raise HarnessError("generated model does not parse:\n" + build_text(case))
-        model = gen.generate(tree, "M", {})
+        model = gen.generate(tree, "M", {"expand_vectors": True} if case.get("dim") else {})
     except HarnessError:
         raise
     except Exception as e:
         return {"raised": "generate:" + type(e).__name__, "msg": str(e)[:300]}
     opts = {"detect_aliases": True}
+    if case.get("dim"):
+        opts["expand_vectors"] = True
     if case.get("kc"):
         opts.update(eliminate_constant_assignments=True, replace_constant_values=True)
     try:
@@ -520,6 +561,7 @@ def model_pass(drv, state, obs, old):
 
 
 def compare_model(ctx, case, res, drv):
+    rep = case.get("_orig", case)        # what a replay needs (a `vector` case is reported unexpanded)
     allv = {v["name"]: v for v in case["vars"]}
     pt = {"Real": "float", "Integer": "int"}
     pvecs = [[a09.jx(x) for x in pv] for pv in case["pvecs"]]
@@ -532,7 +574,7 @@ def compare_model(ctx, case, res, drv):
             state.pop(case["kc"]["c"], None)
         for s, o in res["final"]["vars"].items():
             if s not in state:
-                ctx.disagreement("merge.survivors", case, "model eliminated " + s, "impl kept it")
+                ctx.disagreement("merge.survivors", rep, "model eliminated " + s, "impl kept it")
                 return
             m = state[s]
             got = {a: o["attrs"][a]["v"][k] for a in MERGED}
@@ -540,10 +582,10 @@ def compare_model(ctx, case, res, drv):
                     "fixed": got["fixed"] != 0, "start": None if got["start"] == "dflt" else xj(got["start"]),
                     "ptype": o["ptype"]}
             if m != impl:
-                ctx.disagreement("merge", dict(case, at=k, var=s), m, impl)
+                ctx.disagreement("merge", dict(rep, at=k, var=s), m, impl)
                 return
         if sorted(state) != sorted(res["final"]["vars"]):
-            ctx.disagreement("merge.survivors", case, sorted(state), sorted(res["final"]["vars"]))
+            ctx.disagreement("merge.survivors", rep, sorted(state), sorted(res["final"]["vars"]))
             return
 
 
@@ -555,12 +597,13 @@ def check_case(ctx, case, drv):
         ctx.violation("simplify raised %s on a generated alias model" % res["raised"], case,
                       expected="merged attributes", observed=res, kind="input")
         return
-    bad = oracle(case, res)
+    ecase = expand_case(case)
+    bad = oracle(ecase, res)
     if bad:
         ctx.violation(bad[0], dict(case, text=build_text(case)), expected=bad[1], observed=bad[2], kind="input")
         return
     if drv is not None:
-        compare_model(ctx, case, res, drv)
+        compare_model(ctx, ecase, res, drv)
 
 
 def stats(ctx, case):
@@ -590,7 +633,7 @@ def run(ctx):
         c.pop("_file", None)
         check_case(ctx, c["case"] if "case" in c else c, drv)
     plan = [("main", 400 if quick else 5000), ("twopass", 120 if quick else 1200), ("param-start", 10 if quick else 60),
-            ("twopass-neg", 20 if quick else 200)]
+            ("twopass-neg", 20 if quick else 200), ("vector", 60 if quick else 600)]
     for stream, n in plan:
         for i in range(n):
             if ctx.time_left() < 0:
@@ -607,14 +650,14 @@ def search(ctx):
     import logging
     logging.getLogger("pymoca").setLevel(logging.ERROR)
     while ctx.time_left() > 0 and not ctx.violations:
-        case = prepare(gen_case(ctx.rng, ctx.rng.choice(["main", "main", "twopass"])))
+        case = prepare(gen_case(ctx.rng, ctx.rng.choice(["main", "main", "twopass", "vector"])))
         ctx.case(case, nontrivial=nontrivial(case), key=[build_text(case), case["pvecs"], case["late"]])
         ctx.count("search")
         res = run_impl(case)
         if res["raised"]:
             ctx.violation("simplify raised %s on a generated alias model" % res["raised"], case, observed=res)
             continue
-        bad = oracle(case, res)
+        bad = oracle(expand_case(case), res)
         if bad:
             ctx.violation(bad[0], dict(case, text=build_text(case)), expected=bad[1], observed=bad[2])
 
